@@ -1,6 +1,7 @@
 """C01 - reported groups contain only files with byte-identical content."""
 import re
 from . import register
+from .common import rehash_core, rehash_core_path, rehash_rx
 from .c20 import follow_to_params
 from ..analysis import (return_variants_from, backslice, aggregates, agg_field, switch_targets_bool, count_nots, closure_creation, forward_locals,
                         direct_field, direct_def, comparisons, branch_of, dominated_region, FLIP, NEG, upvar_operand,
@@ -21,6 +22,7 @@ DOC = {
         'C01.R4': 'hashing task: inode groups keyed by file_info.id; FileId equality is the derived one over exactly {device, inode}',
         'C01.R5': 'hash_transformed: the length bound handed to stream_hash has no data dependence on chunk.len (the raw file length)',
         'C01.R6': 'fields of FileInfo written through the &mut handed to hash_fn and read by the group key are assigned on every HashedFileInfo the task sends',
+        'C01.R14': 'one result per inode is shared between hard links only where it is a function of the file alone: group_transformed switches the sharing off (the grouping key of the hashing thread includes the path) when the transform program is handed the original path ($IN with --no-copy)',
         'C01.R13': 'one hash per inode is shared only between paths that still have that (device, inode): the hashing task of rehash re-examines the identity of the members of a multi-path group (FileId::new of the path against the scanned id) before the hash function is called, and leaves out the paths that now lead elsewhere',
         'C01.R12': 'with the hash cache a reported group still consists of identical files: an entry that a same-length rewrite within the tick of a coarse file-system clock would leave valid is never stored (re-evaluates C12.R6)',
         'C01.R11': 'a file is identified by its whole FileId: the inode number is never read without the device (derived Eq/Ord/Hash of FileId, the cache key), except by the inode_id() accessor whose only user computes the read-ordering `location`; a run of \'paths of the same file\' keyed by the inode alone would give one hash to different files of two file systems mapped to one DiskDevice',
@@ -48,6 +50,7 @@ def run(ctx):
     r10(ctx)
     r11(ctx)
     r13(ctx)
+    r14(ctx)
     from .common import reevaluate
     from . import c12
     reevaluate(ctx, 'C01.R12', c12.r6)
@@ -60,7 +63,7 @@ def hash_closure_of(lib, stage):
     b = lib.body('group::' + stage)
     if b is None:
         return None, None, None
-    rh = b.calls(r'group::rehash$')
+    rh = b.calls(rehash_rx(lib))
     if not rh:
         return b, None, None
     l = op_local(rh[0].args[-1])
@@ -73,7 +76,7 @@ def hash_closure_of(lib, stage):
 
 def pre_filter_of(lib, stage):
     b = lib.body('group::' + stage)
-    rh = b.calls(r'group::rehash$') if b else []
+    rh = b.calls(rehash_rx(lib)) if b else []
     if not rh:
         return None
     l = op_local(rh[0].args[1])
@@ -227,7 +230,7 @@ def const_int_of_filepos(body, op):
 def r2(ctx):
     rule = 'C01.R2'
     lib = ctx.lib
-    rh = ctx.need_body(rule, 'group::rehash')
+    rh = ctx.need_body(rule, rehash_core_path(lib))
     if rh is None:
         return
     gm = rh.calls(r'GroupMap.*::new$')
@@ -256,7 +259,7 @@ def r2(ctx):
     n = 0
     for st in ('group_transformed', 'group_by_prefix', 'group_by_suffix', 'group_by_contents'):
         sb = lib.body('group::' + st)
-        if sb is not None and sb.calls(r'group::rehash$'):
+        if sb is not None and sb.calls(rehash_rx(lib)):
             n += 1
     ctx.floor(rule, 'rehash call sites', n, 4)
 
@@ -310,7 +313,7 @@ def r4(ctx):
     rule = 'C01.R4'
     lib = ctx.lib
     found = False
-    for cp in lib.closures_of('group::rehash'):
+    for cp in lib.closures_of(rehash_core_path(lib)):
         cb = lib.body(cp)
         for c in cb.calls(r'Itertools::group_by$|::group_by$|::chunk_by$'):
             l = op_local(c.args[1])
@@ -321,7 +324,10 @@ def r4(ctx):
                     rs = backslice(kb, [0])
                     found = True
                     ctx.fn(kb)
-                    ctx.check(rs.field_names() >= {'file_info', 'id'} and not rs.calls, rule, kp, kb.where(), 'inode groups keyed by file_info.id', 'the hash is shared between files grouped by %s' % sorted(rs.field_names()))
+                            # the key holds the whole id (no function of it); it may hold more than the id (a finer grouping shares less)
+                    id_through_call = [k for k in rs.calls if any('id' in backslice(kb, [a], follow_call=lambda c_: []).field_names() for a in k.args)]
+                    ctx.check(rs.field_names() >= {'file_info', 'id'} and not id_through_call, rule, kp, kb.where(), 'inode groups keyed by file_info.id%s' % (' (+ %s)' % ', '.join(sorted(rs.field_names() - {'file_info', 'id'})) if rs.field_names() - {'file_info', 'id'} else ''),
+                              'the hash is shared between files grouped by %s' % sorted(rs.field_names()))
             # grouping adjacent entries requires the files to be sorted by the same key first
             srt = [x for x in cb.calls(r'sort') if cb.dominates(x.bb, c.bb)]
             ctx.check(bool(srt), rule, cp + '|sorted-before-grouping', c.where(), 'files are sorted (%s) before adjacent grouping' % ','.join(x.path.rsplit('::', 1)[-1] for x in srt), 'adjacent grouping without a preceding sort')
@@ -388,7 +394,7 @@ def r6(ctx, rule):
                         if fs:
                             W.add(fs[-1][2])
     # R: fields of file_info read by the group key closure
-    rh = lib.body('group::rehash')
+    rh = rehash_core(lib)
     R = set()
     if rh is not None:
         for cp in lib.closures_of(rh.path, recursive=False):
@@ -405,7 +411,7 @@ def r6(ctx, rule):
     ctx.stats[rule + ':read-by-group-key'] = sorted(R)
     need = W & R
     task = None
-    for cp in lib.closures_of('group::rehash'):
+    for cp in lib.closures_of(rehash_core_path(lib)):
         cb = lib.body(cp)
         if cb.calls(r'Sender<.*>::send$|Sender::<T>::send$'):
             task = cb
@@ -764,12 +770,57 @@ def r11(ctx):
     ctx.floor(rule, 'inode_id() users', len(users), 1)
 
 
+def r14(ctx):
+    """One result per inode is sound only where the result is a function of the file alone: the stage that runs the transform program must not share
+    it between the hard links when the program is handed the original path ($IN with --no-copy)."""
+    rule = 'C01.R14'
+    lib = ctx.lib
+    core = rehash_core(lib)
+    stage, rh, hc = hash_closure_of(lib, 'group_transformed')
+    if core is None or stage is None or rh is None:
+        ctx.missing(rule, 'group_transformed -> rehash')
+        return
+    ctx.fn(stage)
+    # the key closure of the adjacent grouping in the hashing thread
+    kb = None
+    for cp in lib.closures_of(core.path):
+        cb = lib.body(cp)
+        for c in cb.calls(r'Itertools::group_by$|::group_by$|::chunk_by$'):
+            l = op_local(c.args[1])
+            for kp in lib.closures_of(cp, recursive=False):
+                cr = closure_creation(lib, kp)
+                if cr and l in forward_locals(cb, cr[2]['p'][0]):
+                    kb = lib.body(kp)
+    if kb is None:
+        ctx.missing(rule, 'group_by key closure in the hashing thread')
+        return
+    rs = backslice(kb, [0])
+    per_path = 'path' in rs.field_names()
+    switches = [blk['term'] for blk in kb.blocks if blk['term']['k'] == 'switch']
+    flags = {n for t in switches for _, n in backslice(kb, [t['op']]).upvars}
+    params = {core.local_name(i): i for i in range(1, core.argc + 1) if core.local_ty(i) == 'bool'}
+    flag = sorted(flags & set(params))
+    ok, how = False, ''
+    if per_path and not switches:
+        ok, how = True, 'every path is hashed on its own'
+    elif per_path and flag and rh.path == core.path and len(rh.args) >= params[flag[0]]:
+        a = rh.args[params[flag[0]] - 1]
+        sl = backslice(stage, [a])
+        from_transform = sl.has_call(r'^transform::Transform::\w+$') or bool({'copy', 'no_copy'} & sl.field_names())
+        ok = from_transform
+        how = 'sharing is switched by `%s`, which group_transformed derives from the transform (%s)' % (flag[0], ', '.join(sorted({c.path.rsplit('::', 1)[-1] for c in sl.calls if c.matches(r'^transform::Transform::')} | ({'copy'} & sl.field_names()))))
+    ctx.check(ok, rule, stage.path + '|path-dependent-results-not-shared', rh.where(), 'the transform stage shares one result per inode only when the program cannot see the path: ' + how,
+              'the transform stage hashes one path per (device, inode) and copies the result to the other hard links, also when the program is handed the path of the original file ($IN with --no-copy) and '
+              'its output depends on it: `group --no-copy --transform "basename $IN"` reports d2/b (hard link of d1/a) with the output of d1/a, or misses the duplicates d1/a = d3/a - which one '
+              'depends on the walk order, so the result changes from run to run (the cache is bypassed for such transforms for the same reason)')
+
+
 def r13(ctx):
     """The hash of one path is given to the other paths of its inode group only if they still are that file."""
     rule = 'C01.R13'
     lib = ctx.lib
     task = None
-    for cp in lib.closures_of('group::rehash'):
+    for cp in lib.closures_of(rehash_core_path(lib)):
         cb = lib.body(cp)
         if cb.calls(r'Sender<.*>::send$|Sender::<T>::send$'):
             task = cb
